@@ -187,6 +187,10 @@ def open_templates():
     # the same with a bitmap kept for reuse: equal bits in two subsets designate different positions when the counts differ
     t.append([101000, 31001, 12001, 10004, 7001, 223000, 236000, 101002, 31031, 101000, 31001, 223255])
     t.append([102000, 31001, 1001, 2001, 12001, 11003, 222000, 236000, 101002, 31031, 101000, 31001, 33007, 224000, 237000, 8023, 101000, 31001, 224255])
+    # two replications of different elements in front of the bitmap: with the counts swapped (2,1 / 1,2) the operator sits at the
+    # SAME flat position in both subsets and the bitmap has the same length, but the window holds different elements
+    t.append([101000, 31001, 12001, 101000, 31001, 10004, 223000, 101002, 31031, 101000, 31001, 223255])
+    t.append([101000, 31001, 12001, 101000, 31001, 1015, 222000, 101002, 31031, 101000, 31001, 33007])
     t.append([12001, 204005, 31021, 101000, 31001, 11003])          # 204 never cancelled, count of the last replication varies
     t.append([12001, 221003, 101000, 31001, 10004])                 # 221 not used up when the replication has no repetition
     return t
@@ -277,6 +281,10 @@ def nested_assoc_templates():
             [204004, 31021, 204002, 31021, 12001, 204000, 12001, 204000, 10004, 222000, 101003, 31031, 101000, 31001, 33007]]
 
 
+def swapped_count_templates():
+    return [t for t in open_templates() if t[:6] in ([101000, 31001, 12001, 101000, 31001, 10004], [101000, 31001, 12001, 101000, 31001, 1015])]
+
+
 def sample(items, k, rnd):
     if k >= len(items):
         return list(items)
@@ -294,7 +302,7 @@ def catalogue(tier, seed=0):
     from . import gen
     n = 12 if tier == 'quick' else 60
     g = gen.generate(seed, n, n, n)
-    out = {'plain': p, 'struct': s, 'bitmap': b, 'open': open_templates(), 'dnp': dnp_templates(), 'assoc2': nested_assoc_templates(),
+    out = {'plain': p, 'struct': s, 'bitmap': b, 'open': open_templates(), 'dnp': dnp_templates(), 'assoc2': nested_assoc_templates(), 'swap': swapped_count_templates(),
            'rnd_plain': g['plain'], 'rnd_struct': g['struct'], 'rnd_bitmap': g['bitmap']}
     # Table D sequences as one-descriptor templates (the sequences real messages are made of)
     for mv, seqs in table_d_sample(tier, seed, nquick=12).items():
